@@ -383,8 +383,8 @@ def make_case(seed, idx, profile, avoid=()):
             # a scheduled closure inside a helper would capture the helper's parameter: fine; `@` inside a lambda body is fine too
             # known compiler crash C12-X1: a call with >= 2 arguments (or a `match`) directly inside the body of a
             # directly called lambda panics the compiler or overflows its stack
-            if w == "lambda" and "helper" not in ws and any("," in l or "match" in l for l in u.lines):
-                continue
+            # (former crash C12-X1 — a call with >= 2 arguments or a `match` directly inside the body of a directly called
+            #  lambda — is repaired in /repo a8c3d51: such wrappers are generated again)
             # `{ G = e …` at the start of a block expression is read as a record literal
             if w == "block" and u.variant in ("global-reassign", "global-replace"):
                 continue
